@@ -538,6 +538,25 @@ where
 }
 
 // ---------------------------------------------------------------------------------------------------- C17 clause 1: no reallocation after pre-sizing
+/// v[6]: 0 empty region; 1 one item; 2.. populated until some storage has at most v[6]-2 spare bytes (at most 80 items),
+/// so that the announced batch does not fit into what is left.
+fn prefill<S: Subject>(r: &mut S, v: &[u64]) {
+    match v[6] {
+        0 => {}
+        1 => {
+            let _ = r.put(v[7] % S::POOL);
+        }
+        spare => {
+            for _ in 0..80 {
+                let _ = r.put(v[7] % S::POOL);
+                let tight = collect_heap(|cb| r.heap_size(cb)).iter().any(|p| p.1 > 0 && p.1 - p.0.min(p.1) <= (spare - 2) as usize);
+                if tight {
+                    break;
+                }
+            }
+        }
+    }
+}
 fn presize<S: Subject>(v: &[u64])
 where
     S::Index: Copy,
@@ -553,17 +572,13 @@ where
         0 => {
             // reserve_items on an already populated region
             let mut r = S::default();
-            if v[6] == 1 {
-                let _ = r.put(v[7] % S::POOL);
-            }
+            prefill(&mut r, v);
             r.reserve_pool(batch);
             r
         }
         1 => {
             let mut r = S::default();
-            if v[6] == 1 {
-                let _ = r.put(v[7] % S::POOL);
-            }
+            prefill(&mut r, v);
             r.reserve_regions(std::iter::once(&src));
             r
         }
@@ -713,7 +728,7 @@ fn doms_merge() -> Vec<Vec<u64>> {
     vec![range(13), range(4), range(4), range(4), vec![2], vec![3], range(9), range(2)]
 }
 fn doms_presize() -> Vec<Vec<u64>> {
-    vec![range(9), range(4), range(4), range(4), range(4), range(3), range(2), vec![2]]
+    vec![range(9), range(4), range(4), range(4), range(4), range(3), range(5), vec![2]]
 }
 fn doms_heap() -> Vec<Vec<u64>> {
     vec![range(13), range(6), range(6), range(6)]
@@ -732,7 +747,7 @@ pub fn harnesses() -> Vec<H> {
         H { name: "merge_twin", props: &["C10"], nargs: 8, pre: pre12, doms: doms_merge, run: run_merge, panic_ok: true,
             bound: "13 compositions; merge_regions over 0, 1 or 3 source regions (empty / populated / repeated), optionally a second generation merged from its own ancestor; 2 pushes compared with a default twin", kani: false },
         H { name: "presize_no_realloc", props: &["C17"], nargs: 8, pre: pre9, doms: doms_presize, run: run_presize, panic_ok: false,
-            bound: "8 vector-backed structural regions + FlatStack::merge_capacity; batch of 0..3 items; reserve_items / reserve_regions (on an empty or populated region) / merge_regions, then pushing exactly the announced contents: every capacity reported by heap_size constant", kani: false },
+            bound: "8 vector-backed structural regions + FlatStack::merge_capacity; batch of 0..3 items; reserve_items / reserve_regions (on an empty region, one holding 1 item, or one filled until a storage has 0..2 spare bytes) / merge_regions, then pushing exactly the announced contents: every capacity reported by heap_size constant", kani: false },
         H { name: "heap_accounting", props: &["C18"], nargs: 4, pre: pre12, doms: doms_heap, run: run_heap, panic_ok: false,
             bound: "13 compositions; 3 pushes: used <= capacity for every pair, number of pairs, sum(used) >= payload + index entries, non-decreasing under push; after clear no payload accounted and no capacity shrank", kani: false },
     ]
